@@ -82,7 +82,7 @@ def _coords(case):
 def impl(case):
     from gemdat.volume import trajectory_to_volume
     c = _coords(case)
-    traj = synth.make_traj(case['m'], ['Li'] * c.shape[1], c)
+    traj = synth.make_traj(case['m'], ['Li'] * c.shape[1], c, images=synth.image_seed(case))
     lengths = [float(v) for v in traj.get_lattice().lengths]
     res = min(case['res'], min(lengths))
     guard = synth.InputGuard(trajectory=traj)
